@@ -48,17 +48,29 @@ def run(rep):
     from engine_mir import inlined
     G0 = sorted(n for n, b in mir.bodies.items() if agg_sites(b, f'{ERR}::DuplicateBinding'))
     X = []
-    for g in G0:
-        if any(cname(t) == 'std::vec::Vec::<T, A>::push' for _, t in mir.bodies[g].calls()):
-            X.append(g)
-        else:
-            for cn, cb in mir.bodies.items():
-                if cb.kind != 'Closure' and any(cname(t) == g for _, t in cb.calls()) and any(cname(t) == 'std::vec::Vec::<T, A>::push' for _, t in cb.calls()):
-                    X.append(cn)
+    # by role: the function that runs over module.global_variables and from which the construction of DuplicateBinding is reached (directly, or in
+    # helpers / methods such as `GroupData::insert`, which are inlined below)
+    for cn, cb in sorted(mir.bodies.items()):
+        if cb.kind == 'Closure':
+            continue
+        loops_globals = any(cname(t) == 'naga::Arena::<T>::iter' and op_place(t['args'][0]) and 'global_variables' in str(canon(cb, op_place(t['args'][0]))) for _, t in cb.calls())
+        if loops_globals and (mir.reachable_fns([cn]) & set(G0)):
+            X.append(cn)
+    if not X:
+        for g in G0:
+            if any(cname(t) == 'std::vec::Vec::<T, A>::push' for _, t in mir.bodies[g].calls()):
+                X.append(g)
+            else:
+                for cn, cb in mir.bodies.items():
+                    if cb.kind != 'Closure' and any(cname(t) == g for _, t in cb.calls()) and any(cname(t) == 'std::vec::Vec::<T, A>::push' for _, t in cb.calls()):
+                        X.append(cn)
     helper_parents = set()
     for x in sorted(set(X)):
-        helper_parents |= {cname(t) for _, t in mir.bodies[x].calls() if cname(t) in mir.bodies and mir.bodies[cname(t)].kind != 'Closure'}
-        mir.bodies[x] = inlined(mir, x, depth=2)
+        frontier = {x}
+        for _ in range(3):
+            frontier = {cname(t) for f_ in frontier if f_ in mir.bodies for _, t in mir.bodies[f_].calls() if cname(t) in mir.bodies and mir.bodies[cname(t)].kind != 'Closure'} - {x}
+            helper_parents |= frontier
+        mir.bodies[x] = inlined(mir, x, depth=3)
     G = sorted(n for n, b in mir.bodies.items() if n in set(X) and agg_sites(b, f'{ERR}::DuplicateBinding'))
     Gn = sorted(n for n, b in mir.bodies.items() if agg_sites(b, f'{ERR}::NonConsecutiveBindGroups') and n not in helper_parents)
     rep.floor('functions constructing DuplicateBinding', len(G), 1)
@@ -83,6 +95,8 @@ def run(rep):
             if cname(t) == 'std::vec::Vec::<T, A>::push' and 'bindings' in str(canon(B, op_place(t['args'][0]))):
                 elem_tys.add(t['self_ty'])
     for name, B in sorted(mir.bodies.items()):
+        if name in helper_parents and name not in X and all(cn in X or cn in helper_parents for cn, cb in mir.bodies.items() if cb.kind != 'Closure' and any(cname(t_) == name for _, t_ in cb.calls())):
+            continue        # a helper called only from the group-data function (and its helpers): judged inlined there
         for bb, t in B.calls():
             if cname(t) != 'std::vec::Vec::<T, A>::push' or t['self_ty'] not in elem_tys:
                 continue
@@ -120,7 +134,7 @@ def run(rep):
             cmp_ok = False
             if cl and cl in mir.bodies:
                 CB = mir.bodies[cl]
-                up_roots = [canon(B, op_place(o)) for o in (ups or []) if op_place(o)]
+                up_roots = [through_record(B, canon(B, op_place(o))) for o in (ups or []) if op_place(o)]
                 for blk in CB.blocks:
                     for st in blk['stmts']:
                         rv = st['rv']
@@ -142,7 +156,7 @@ def run(rep):
             dups = [(b, st) for b, st in agg_sites(B, f'{ERR}::DuplicateBinding') if b in tr]
             okd = False
             for b, st in dups:
-                r = canon(B, op_place(st['rv']['ops'][0])) if st['rv']['ops'] and op_place(st['rv']['ops'][0]) else None
+                r = through_record(B, canon(B, op_place(st['rv']['ops'][0]))) if st['rv']['ops'] and op_place(st['rv']['ops'][0]) else None
                 pushed = pushed_binding_root(B, t)
                 if r and r[1].endswith('.binding') and (pushed is None or r == pushed):
                     okd = True
@@ -196,7 +210,9 @@ def run(rep):
     for gname in G:
         B = mir.bodies[gname]
         it = [(bb, t) for bb, t in B.calls() if method(cname(t)) == 'next' and 'GlobalVariable' in t['self_ty']]
-        ok = bool(it) and all(t['self_ty'].startswith('std::iter::Map<std::iter::Enumerate<std::slice::Iter<') for _, t in it)
+        plain = 'std::iter::Map<std::iter::Enumerate<std::slice::Iter<'
+        ok = bool(it) and all(t['self_ty'].startswith(plain) or
+                              (t['self_ty'].startswith('std::iter::FilterMap<' + plain) and keeps_exactly_bound_variables(mir, B)) for _, t in it)
         src = [(bb, t) for bb, t in B.calls() if cname(t) == 'naga::Arena::<T>::iter' and 'global_variables' in str(canon(B, op_place(t['args'][0])))]
         rep.check(ok and bool(src), 'C11.R2.all-globals', f'loop-source:{gname}', B.where(),
                   f'the collection loop does not run over module.global_variables.iter() unadapted (iterator type {[t["self_ty"][:70] for _, t in it]})',
@@ -321,6 +337,32 @@ def run(rep):
     rep.info['pushes'] = n_push
 
 
+def keeps_exactly_bound_variables(mir, B):
+    """the `filter_map` between module.global_variables.iter() and the loop drops exactly the variables without a resource binding: its closure
+    branches only on the presence of `<variable>.binding` (the same selection as `if let Some(binding) = &global.binding` inside the loop) and
+    calls nothing but Option plumbing"""
+    ok_any = False
+    for bb, t in B.calls():
+        if method(cname(t)) != 'filter_map' or 'GlobalVariable' not in (t.get('self_ty') or '') + (t.get('generics') or ''):
+            continue
+        cl, ups = closure_of(B, op_local(t['args'][1])) if len(t['args']) > 1 and op_local(t['args'][1]) is not None else (None, None)
+        CB = mir.bodies.get(cl) if cl else None
+        if CB is None:
+            return False
+        for b, blk in enumerate(CB.blocks):
+            tt = blk['term']
+            if tt['k'] == 'switch':
+                neg, calls, places = chain_of(CB, op_local(tt['discr'])) if op_local(tt['discr']) is not None else (False, [], [])
+                if not any(p_ and '.binding' in p_[1] for p_ in places):
+                    return False
+            if tt['k'] == 'call':
+                c = cname(tt)
+                if not (c.startswith(('std::option::Option', '<std::option::Option')) or c.endswith(('::branch', '::from_residual', '::as_ref'))):
+                    return False
+        ok_any = True
+    return ok_any
+
+
 def recv_chain(B, local, stop_root):
     """calls between a scan's receiver and the list it ranges over (stops at the first place rooted like stop_root)"""
     calls, roots = [], set()
@@ -349,6 +391,31 @@ def recv_chain(B, local, stop_root):
 
 
 _REC = [None, None]     # (aggregate name, index field) of the collected-binding record, set by run()
+
+
+def through_record(B, r):
+    """if r is `<collected-binding record>.<index field>` (the record that is about to be pushed, e.g. handed to a helper such as
+    `GroupData::insert(binding)`), return the root its index field was built from; otherwise r itself"""
+    if r is None or _REC[0] is None:
+        return r
+    tail = r[1].replace('&', '').replace('*', '')
+    if not tail.endswith('.' + _REC[1]):
+        return r
+    l = r[0]
+    for _ in range(8):
+        defs = [d for d in B.defs().get(l, []) if d[1] == 'assign' and not d[2]['lhs']['p']]
+        if len(defs) != 1:
+            return r
+        rv = defs[0][2]['rv']
+        if rv['rk'] == 'aggregate' and rv['agg'] == _REC[0]:
+            o = dict(zip(rv['fields'], rv['ops'])).get(_REC[1])
+            return canon(B, op_place(o)) if o is not None and op_place(o) else r
+        ps = B.rvalue_places(rv)
+        if rv['rk'] in ('use', 'ref') and ps:
+            l = ps[0]['l']
+            continue
+        return r
+    return r
 
 
 def pushed_binding_root(B, push_t):
